@@ -696,7 +696,7 @@ class OpGen:
         self.k = knobs
         self.n = 0
         w = {}
-        for name, base in (("declare", 3), ("bare", 2), ("regex", 1), ("refine", 4), ("combine", 3), ("substitute", 3), ("validate", 3),
+        for name, base in (("declare", 3), ("bare", 2), ("regex", 1), ("bigalpha", 1), ("refine", 4), ("combine", 3), ("substitute", 3), ("validate", 3),
                            ("fake", 2), ("print", 1), ("read", 1), ("from_native", 1), ("mutate", 4), ("repeat", 3),
                            ("eq_schema", 1)):
             w[name] = base * r.choice((0.3, 1, 1, 2))
@@ -891,6 +891,27 @@ class OpGen:
             return None
         call = r.choice(cands)
         return {"op": "refine", "s": sid, "call": call, "out": self.new_id("s")}
+
+    BIG_ALPHABETS = (
+        "".join(chr(c) for c in range(0x391, 0x3ea) if c != 0x3a2),
+        "".join(chr(c) for c in range(0x410, 0x470)),
+        "".join(chr(c) for c in range(0xc0, 0x140)),
+        "".join(chr(c) for c in range(0x21, 0x7f)),
+        "".join(chr(c) for c in range(0x3041, 0x3097)),
+    )
+
+    def g_bigalpha(self):
+        """str schemas over large, mutually disjoint alphabets (an alphabet is the biggest value a schema
+        holds; whatever is derived from it and kept around must be keyed by content, not by address)."""
+        r = self.r
+        alpha = r.choice(self.BIG_ALPHABETS)
+        n = r.randint(1, 6)
+        w = "".join(r.choice(alpha) for _ in range(n))
+        spec = {"t": "str", "alphabet": alpha, "len": ["range", 0, 8], "order": r.choice((["alphabet", "len"], ["len", "alphabet"]))}
+        if r.random() < 0.5:
+            spec = {"t": "list", "type": spec}
+            w = [w]
+        return {"op": "declare", "spec": spec, "witness": enc(w), "out": self.new_id("s")}
 
     def g_regex(self):
         """A regex str (incl. open-ended repeats with a minimum above the default cap, and now and then an
